@@ -415,6 +415,6 @@ def run(repo, res, tier):
     spanuse_rule(repo, res)
     order_rule(repo, res)
     neutral_rule(repo, res)
-    res.floor("TYREACH", res.count("TYREACH"), 4)
-    res.floor("ABSTRACT", res.count("ABSTRACT"), 9)
-    res.floor("SPANUSE", res.count("SPANUSE"), 10)
+    res.floor("TYREACH", res.count("TYREACH"), 2)
+    res.floor("ABSTRACT", res.count("ABSTRACT"), 4)
+    res.floor("SPANUSE", res.count("SPANUSE"), 5)
